@@ -323,6 +323,14 @@ def huge_cases(dss, configs, flags=(0, 1), namings=("ints", "letters")):
     return out
 
 
+def lex_cases(dss, configs, flags=(1,), namings=("ints", "letters"), every=None, env="nocplex"):
+    """cases under the lexicographic schemes of core.LEX (see there)"""
+    out = cases(dss, configs, [PRESET[0]], flags=flags, namings=list(namings), every=every, env=env)
+    for k, c in enumerate(out):
+        c["lex"] = k % len(core.LEX)
+    return out
+
+
 def scaled_cases(dss, configs, schemes, uexp, flags=(1,), namings=("ints", "letters"), every=None):
     """same as cases() but the penalties given to the library are q * 2**(-uexp) (uexp = 40: ~1e-12, uexp = -70:
     ~1e21): magnitudes far outside TLC's integers, which only sees the integers q (all clauses used on these
